@@ -24,7 +24,7 @@ def run(ctx):
         tab = tables[t]
         if n % 4 == 1:
             # the nullable column n first in the table: COUNT(n) counts the leading column of the input
-            perm = [3, 0, 1, 2, 4, 5]
+            perm = [3, 0, 1, 2, 4, 5, 6]
             tab = dict(cols=[tab["cols"][i] for i in perm], rows=[[r[i] for i in perm] for r in tab["rows"]])
         cases.append(dict(db={"t7": tab}, q=q, _t=t))
         # the same rows in reverse insertion order: aggregates must not depend on row order
